@@ -79,6 +79,10 @@ def neutralise(doc, what: str):
                     x[k] = "neutral"
                 elif what == "pattern" and k == "pattern" and isinstance(x[k], str):
                     x[k] = "^a$"
+                elif what == "pattern" and k == "patternProperties" and isinstance(x[k], dict):
+                    # the keys are patterns too (written as the key type `constr(...)` of the Dict)
+                    x[k] = {f"^a{i}$": v for i, v in enumerate(x[k].values())}
+                    go(x[k])
                 else:
                     go(x[k])
         elif isinstance(x, list):
@@ -97,6 +101,9 @@ def all_strings(doc, key: str) -> list[str]:
             for k, v in x.items():
                 if k == key and isinstance(v, str):
                     out.append(v)
+                elif key == "pattern" and k == "patternProperties" and isinstance(v, dict):
+                    out.extend(v)
+                    go(v)
                 else:
                     go(v)
         elif isinstance(x, list):
@@ -337,7 +344,13 @@ def known_findings(ck: Check) -> None:
     for f in ck.findings:
         probe = Check(ck.prop, ck.tier)
         probe.findings = []
-        run_case(probe, probe.campaign("witness"), dict(f["witness"]))
+        if f["witness"].get("formatters") and f["match"].get("formatters"):
+            # a finding that only the default formatters show: run_case leaves a formatter's InvalidInput to the formatter-less run
+            from . import c01_pattern
+
+            c01_pattern.judge(probe, probe.campaign("witness"), dict(f["witness"]))
+        else:
+            run_case(probe, probe.campaign("witness"), dict(f["witness"]))
         if probe.failures:
             ck.known(f["id"], f["what"])
 
@@ -440,6 +453,14 @@ def run(ck: Check) -> None:
 
     ck.search_hooks.insert(0, c01_imports.search)
     guard.campaign(ck, c01_imports.campaign_import_groups, run_case, random_opts, 250 if quick else 3000)
+    # regex patterns as source text: the real pattern_literal vs Proofs/PatternLit (pattern_literal_one_token), and the
+    # always-run family of patterns over the quote / backslash / newline / brace alphabet in complete documents
+    from . import c01_pattern
+
+    ck.search_hooks.insert(0, c01_pattern.search)
+    ck.search_hooks.append(c01_pattern.search_last)
+    guard.campaign(ck, c01_pattern.campaign_patlit, 600 if quick else 20000)
+    guard.campaign(ck, c01_pattern.campaign_patterns, 6 if quick else 250)
     guard.campaign(ck, _campaign_templates, quick)
     guard.campaign(ck, tpl_search.self_test)
     probe, PROBE = PROBE, None
